@@ -651,6 +651,8 @@ pub fn run(_env: &Env, run: &Run) -> (Stats, Coverage) {
             lens.extend([(1 << 24) - 1, (1 << 24) + 1]);
         }
         for n in lens {
+            // megabyte rows legitimately take a while on a loaded machine
+            crate::watch::with_allowance(if n > (1 << 19) { 60 + 30 * (n as u64 >> 20) } else { 0 }, || {
             for filler in ["x", "\u{e9}", "a, b"] {
                 let desc: String = filler.repeat(n / filler.len() + 1).chars().take(n).collect();
                 let row = format!("0041-005A,ID_DIS or FREE_PVAL,{}", desc);
@@ -670,6 +672,7 @@ pub fn run(_env: &Env, run: &Run) -> (Stats, Coverage) {
                     st.nontrivial += 1;
                 }
             }
+            });
         }
         let _ = std::fs::remove_file(&path);
     }
